@@ -4,6 +4,7 @@ package main
 // fmt, errors, sort, context, equality helpers.
 
 import (
+	"encoding/base64"
 	"fmt"
 	"os"
 	"sort"
@@ -184,6 +185,40 @@ func init() {
 		}
 		return nil
 	}
+	// OtherProcess(key, f): the value f computes in another process of the same binary.
+	// Everything that depends on per-process randomness is re-drawn for the call.
+	I[vzPkg+".OtherProcess"] = func(p *Path, a []Value, site *ssa.CallCommon) Value {
+		p.epoch++
+		r := p.callValue(a[1], nil, site)
+		p.epoch--
+		return r
+	}
+	procRand := func(p *Path, what string, sort Sort) *Term {
+		if p.procRand == nil {
+			p.procRand = map[string]*Term{}
+		}
+		k := fmt.Sprintf("%d|%s", p.epoch, what)
+		if t, ok := p.procRand[k]; ok {
+			return t
+		}
+		t := p.fresh("procrand", sort)
+		p.procRand[k] = t
+		return t
+	}
+	I["hash/maphash.MakeSeed"] = func(p *Path, a []Value, site *ssa.CallCommon) Value {
+		// the seed itself is an opaque token; what is hashed with it depends on the process
+		p.freshCtr++
+		return StructVal{t: site.Signature().Results().At(0).Type(), f: []Value{mkInt(int64(p.freshCtr))}}
+	}
+	I["hash/maphash.String"] = func(p *Path, a []Value, _ *ssa.CallCommon) Value {
+		seed := "?"
+		if sv, ok := a[0].(StructVal); ok && len(sv.f) > 0 {
+			seed = termOf(sv.f[0]).String()
+		}
+		h := procRand(p, "maphash|"+seed+"|"+termOf(a[1]).String(), SInt)
+		p.addPC(mkAnd(mkLe(mkInt(0), h), mkLe(h, mkBig(new(big.Int).SetUint64(^uint64(0))))))
+		return h
+	}
 	I[vzPkg+".MapOrderReps"] = func(p *Path, a []Value, _ *ssa.CallCommon) Value { return mkInt(1) }
 	I[vzPkg+".Thorough"] = func(p *Path, a []Value, _ *ssa.CallCommon) Value { return mkBool(p.eng.thorough) }
 	I[vzPkg+".Symbolic"] = func(p *Path, a []Value, _ *ssa.CallCommon) Value { return tTrue }
@@ -222,6 +257,45 @@ func init() {
 		var r *Term = mkStr(ents[len(ents)-1].v)
 		for j := len(ents) - 2; j >= 0; j-- {
 			r = mkIte(mkEq(i, mkInt(ents[j].k)), mkStr(ents[j].v), r)
+		}
+		return r
+	}
+
+	// HostCallIntCode: as HostCallInt, but the result is an integer that identifies the
+	// table value (equal strings <=> equal codes); integer ite chains are far cheaper
+	// for the solver than string ones when only equality matters.
+	I[vzPkg+".HostCallIntCode"] = func(p *Path, a []Value, _ *ssa.CallCommon) Value {
+		name := cstr(p, a[0], "HostCallIntCode name")
+		prefix := cstr(p, a[1], "HostCallIntCode prefix")
+		i := termOf(a[2])
+		ents := p.eng.hostIntEntries(name, prefix)
+		if len(ents) == 0 {
+			panic(unsupported("HostCallIntCode: empty table for " + name + " " + prefix))
+		}
+		vals := map[string]bool{}
+		for _, e := range ents {
+			vals[e.v] = true
+		}
+		sorted := make([]string, 0, len(vals))
+		for v := range vals {
+			sorted = append(sorted, v)
+		}
+		sort.Strings(sorted)
+		code := map[string]int64{}
+		for k, v := range sorted {
+			code[v] = int64(k)
+		}
+		if c, ok := i.constInt64(); ok {
+			if v, ok := p.eng.hostTable[name+"\x00"+prefix+strconv.FormatInt(c, 10)]; ok {
+				return mkInt(code[v])
+			}
+			panic(unsupported("HostCallIntCode table miss"))
+		}
+		p.flushAsserts()
+		p.addPC(mkAnd(mkLe(mkInt(ents[0].k), i), mkLe(i, mkInt(ents[len(ents)-1].k))))
+		var r *Term = mkInt(code[ents[len(ents)-1].v])
+		for j := len(ents) - 2; j >= 0; j-- {
+			r = mkIte(mkEq(i, mkInt(ents[j].k)), mkInt(code[ents[j].v]), r)
 		}
 		return r
 	}
@@ -337,36 +411,42 @@ func init() {
 		}
 		return p.locPtr("UTC")
 	}
-	I["(time.Time).Truncate"] = func(p *Path, a []Value, _ *ssa.CallCommon) Value {
+	// Truncate / Round by a constant duration that divides a day (whole seconds) or a
+	// second (sub-second units): for these the zero-time based rounding of the time
+	// package coincides with rounding the Unix representation.
+	roundTime := func(p *Path, a []Value, round bool, what string) Value {
 		t := a[0].(TimeVal)
 		d, ok := termOf(a[1]).constInt64()
 		if !ok {
-			panic(unsupported("Truncate with symbolic duration"))
+			panic(unsupported(what + " with symbolic duration"))
 		}
 		if d <= 0 {
 			return t
 		}
-		if d == 1e9 {
-			return TimeVal{sec: t.sec, nsec: mkInt(0), loc: t.loc}
+		switch {
+		case d%1e9 == 0 && 86400%(d/1e9) == 0:
+			k := d / 1e9
+			rs := mkFloorMod(t.sec, mkInt(k))                    // seconds past the boundary
+			r := mkAdd(mkMul(rs, mkInt(1e9)), t.nsec)            // nanoseconds past the boundary
+			down := TimeVal{sec: mkSub(t.sec, rs), nsec: mkInt(0), loc: t.loc}
+			if !round {
+				return down
+			}
+			up := mkIte(mkLe(mkInt(d), mkAdd(r, r)), mkInt(k), mkInt(0))
+			return TimeVal{sec: mkAdd(down.sec, up), nsec: mkInt(0), loc: t.loc}
+		case d < 1e9 && int64(1e9)%d == 0:
+			r := mkFloorMod(t.nsec, mkInt(d))
+			if !round {
+				return TimeVal{sec: t.sec, nsec: mkSub(t.nsec, r), loc: t.loc}
+			}
+			n := mkIte(mkLe(mkInt(d), mkAdd(r, r)), mkAdd(mkSub(t.nsec, r), mkInt(d)), mkSub(t.nsec, r))
+			s2, n2 := normTime(t.sec, n)
+			return TimeVal{sec: s2, nsec: n2, loc: t.loc}
 		}
-		panic(unsupported("Truncate by other than a second"))
+		panic(unsupported(what + " by a duration that divides neither a day nor a second"))
 	}
-	I["(time.Time).Round"] = func(p *Path, a []Value, _ *ssa.CallCommon) Value {
-		t := a[0].(TimeVal)
-		d, ok := termOf(a[1]).constInt64()
-		if !ok {
-			panic(unsupported("Round with symbolic duration"))
-		}
-		if d <= 0 {
-			return t
-		}
-		if d == 1e9 {
-			// halfway values round up
-			up := mkIte(mkLe(mkInt(500000000), t.nsec), mkInt(1), mkInt(0))
-			return TimeVal{sec: mkAdd(t.sec, up), nsec: mkInt(0), loc: t.loc}
-		}
-		panic(unsupported("Round by other than a second"))
-	}
+	I["(time.Time).Truncate"] = func(p *Path, a []Value, _ *ssa.CallCommon) Value { return roundTime(p, a, false, "Truncate") }
+	I["(time.Time).Round"] = func(p *Path, a []Value, _ *ssa.CallCommon) Value { return roundTime(p, a, true, "Round") }
 	opaqueStr := func(what string) intrinsicFn {
 		return func(p *Path, a []Value, _ *ssa.CallCommon) Value { return p.fresh("opaque_"+what, SStr) }
 	}
@@ -604,6 +684,23 @@ func init() {
 	}
 	I["strings.Replace"] = func(p *Path, a []Value, _ *ssa.CallCommon) Value {
 		return mkStr(strings.Replace(cstr(p, a[0], "Replace"), cstr(p, a[1], "Replace"), cstr(p, a[2], "Replace"), p.concreteInt(a[3], "Replace n")))
+	}
+	// base64 (standard alphabet assumed for the receiver), constant input only
+	I["(*encoding/base64.Encoding).DecodeString"] = func(p *Path, a []Value, _ *ssa.CallCommon) Value {
+		in := cstr(p, a[1], "base64 DecodeString")
+		out, err := base64.StdEncoding.DecodeString(in)
+		bt := types.Typ[types.Uint8]
+		b := &Backing{elem: bt, cells: make([]*Cell, len(out))}
+		for i, c := range out {
+			cell := newCell(bt)
+			cell.v = mkInt(int64(c))
+			b.cells[i] = cell
+		}
+		sl := SliceVal{b: b, len: len(out), cap: len(out)}
+		if err != nil {
+			return TupleVal{sl, p.newErr(mkStr(err.Error()), nil, "base64")}
+		}
+		return TupleVal{sl, IfaceVal{}}
 	}
 	I["strings.Repeat"] = func(p *Path, a []Value, _ *ssa.CallCommon) Value {
 		return mkStr(strings.Repeat(cstr(p, a[0], "Repeat"), p.concreteInt(a[1], "Repeat n")))
@@ -1124,10 +1221,12 @@ func (p *Path) sprintf(format Value, argsV Value) (*Term, Value) {
 	out := mkStr("")
 	opaque := false
 	ai := 0
+	minLen := 0
 	for i := 0; i < len(f); i++ {
 		c := f[i]
 		if c != '%' {
 			out = mkConcat(out, mkStr(string(c)))
+			minLen++
 			continue
 		}
 		i++
@@ -1148,6 +1247,15 @@ func (p *Path) sprintf(format Value, argsV Value) (*Term, Value) {
 		}
 		verb := f[j]
 		hadFlags := j != i
+		// a width pads to at least that many characters
+		if w := strings.TrimLeft(f[i:j], "+-# 0"); hadFlags && w != "" {
+			if k := strings.IndexByte(w, '.'); k >= 0 {
+				w = w[:k]
+			}
+			if n, err := strconv.Atoi(w); err == nil {
+				minLen += n
+			}
+		}
 		i = j
 		arg := getArg(ai)
 		ai++
@@ -1176,7 +1284,33 @@ func (p *Path) sprintf(format Value, argsV Value) (*Term, Value) {
 		}
 	}
 	if opaque {
-		return p.fresh("opaque_fmt", SStr), wrapped
+		// function-consistent: the same format applied to the same argument terms is the same string
+		key := f
+		for i := 0; i < args.len; i++ {
+			if t, ok := args.b.cells[args.off+i].load().(IfaceVal); ok {
+				if tt, ok := t.v.(*Term); ok {
+					key += "|" + tt.String()
+					continue
+				}
+			}
+			key = ""
+			break
+		}
+		if key == "" {
+			return p.fresh("opaque_fmt", SStr), wrapped
+		}
+		if p.opaqueFmts == nil {
+			p.opaqueFmts = map[string]*Term{}
+		}
+		if t, ok := p.opaqueFmts[key]; ok {
+			return t, wrapped
+		}
+		t := p.fresh("opaque_fmt", SStr)
+		if minLen > 0 {
+			p.addPC(mkLe(mkInt(int64(minLen)), mk("str.len", SInt, t)))
+		}
+		p.opaqueFmts[key] = t
+		return t, wrapped
 	}
 	return out, wrapped
 }
